@@ -55,7 +55,7 @@ SPEC = {
  "C05": (["OxiddModel.Bdd.PropertiesC05"], [("c05", ["bdd", "bcdd", "zbdd"])]),
  "C06": ([(GEN + "ObBdd", r"memo_"), (GEN + "ObMtbdd", r"memo_"), (GEN + "ObTdd", r"memo_"), "OxiddModel.Bdd.PropertiesC06", "OxiddModel.Bcdd.PropertiesC06", "OxiddModel.Zbdd.PropertiesC06"], [("c06", ["bdd", "bcdd", "zbdd"])]),
  "C07": ([GEN + "ObOrderings", "OxiddModel.Bdd.PropertiesC07", ("OxiddModel.Locks.Properties", r"acquisitions_ranked|no_deadlock|no_cyclic_wait|try_never_blocks|holds_buckets|exclusive_|reentrant_|pool_takes"), ("OxiddModel.Locks.PropertiesTrace", r"trace_|ok_toProg|accepts_|follows_|stepThread_trace|evWhy|driver_|ctxTable|tableContexts")], [("c07", ["bdd", "bcdd", "zbdd"])]),
- "C08": (["OxiddModel.Reorder.Properties"], [("c08", ["bdd", "bcdd", "zbdd"])]),
+ "C08": (["OxiddModel.Reorder.Properties", ("OxiddModel.Reorder.PropertiesStore", r"swapS_|swapsS_|bubbleDownS|setVarOrderS")], [("c08", ["bdd", "bcdd", "zbdd"])]),
  "C09": ([(Z, r"family|union|intsec|diff|subset|change|makeNode|bool_view|add_vars|taut|setops|const_nf"), ("OxiddModel.Zbdd.PropertiesC06", r"zbdd_setop_spec|zbdd_subset_spec|zbdd_not_spec|zbdd_ite_spec|zbdd_restrict_spec|zbdd_taut|zbdd_restrict_sound_across_addvars|zbdd_terminal_refines")], [("c09", ["zbdd"])]),
  "C12": (["OxiddModel.Bdd.PropertiesC12", (B, r"satcount"), (Z, r"satcount")], [("c12", ["bdd", "bcdd", "zbdd"])]),
  "C13": (["OxiddModel.Bdd.PropertiesC13", (B, r"pick|choice|literal"), (Z, r"pick")], [("c13", ["bdd", "bcdd", "zbdd"])]),
@@ -83,6 +83,9 @@ for pid, (mods, suites) in SPEC.items():
             streams.append({"name": f"{k}-bggc", "bin": "bf", "proto": k, "gen": {"quick": ["--kind", k, "--suite", "bggc"], "thorough": ["--kind", k, "--suite", "bggc"]},
                             "run_args": ["--kind", k, "--capped", "1"]})
     if pid == "C08":
+        # the same operation file replayed on the store-level model of level_swap / set_var_order
+        # (ids, per-level tables, reference counts; `dump` directly after `order` is predicted)
+        streams.append({"name": "bdd-c08-store", "bin": "bf", "proto": "reorder-store", "gen": {"quick": ["--kind", "bdd", "--suite", "c08", "--dump-after-order", "1"], "thorough": ["--kind", "bdd", "--suite", "c08", "--dump-after-order", "1"]}, "run_args": ["--kind", "bdd"]})
         streams += [kf("kf-zbdd-reorder", "zbdd"), kf("kf-reorder-oom", "bdd")]
     if pid == "C14":
         streams += [kf("kf-reorder-oom", "bdd"), kf("kf-zbdd-addvars-oom", "zbdd")]
